@@ -108,3 +108,46 @@ Contract(target=f'{CH}::LegPipe.outer_conj', props=['C03', 'C02'], params={'self
              # the claim is recomputed for the negated charges (F-04)
              'result.sorted == spec_sorted(result.charges)',
              'result.legs[0] is self.legs[0] and result.legs[1] is self.legs[1]'])
+
+# a pipe whose first incoming leg is itself a pipe: conjugation reaches every level (otherwise the legs obtained by splitting the
+# conjugate level by level are not the conjugates of the original legs: C06 "conjugate legs stay contractible")
+_IN3 = Obj('LegCharge', CH, dict(_LEG_ATTRS))
+_IN4 = Obj('LegCharge', CH, dict(_LEG_ATTRS))
+_INNER = Obj('LegPipe', CH, dict(_LEG_ATTRS, nlegs=Int(), legs=FixedList([_IN3, _IN4], as_tuple=True), subshape=Opaque(), subqshape=Opaque(),
+                                 q_map=Opaque(), q_map_slices=Opaque(), _perm=Opaque(), _strides=Opaque()))
+_NESTED = Obj('LegPipe', CH, dict(_LEG_ATTRS, nlegs=Int(), legs=FixedList([_INNER, _IN2], as_tuple=True), subshape=Opaque(), subqshape=Opaque(),
+                                  q_map=Opaque(), q_map_slices=Opaque(), _perm=Opaque(), _strides=Opaque()))
+
+
+
+def _hunt_nested():
+    """witness on the real classes: conjugate a pipe of (pipe, leg) and look at the innermost legs"""
+    from tenpy.linalg import charges
+    ci = charges.ChargeInfo([1])
+    for q1, q2 in ((1, 1), (1, -1), (-1, 1)):
+        l1 = charges.LegCharge.from_qflat(ci, [0, 1, 1], q1)
+        l2 = charges.LegCharge.from_qflat(ci, [0, 2], q2)
+        inner = charges.LegPipe([l1, l2])
+        outer = charges.LegPipe([inner, l2])
+        before = [x.qconj for x in inner.legs]
+        c = outer.conj()
+        got = [x.qconj for x in c.legs[0].legs]
+        if got != [-x for x in before] or [x.qconj for x in inner.legs] != before or c.legs[0].legs[0] is inner.legs[0]:
+            return {'input': {'pipe': 'LegPipe([LegPipe([l1, l2]), l2])', 'qconj of l1, l2': [q1, q2]},
+                    'observed': f'innermost legs of pipe.conj() have qconj {got}, those of pipe {before} (now {[x.qconj for x in inner.legs]})'}
+    return None
+
+
+Contract(target=f'{CH}::LegPipe.conj', props=['C03', 'C06'], name='LegPipe.conj[nested pipe]', params={'self': _NESTED}, setup=_setup, hooks=_HOOKS, hunt=_hunt_nested,
+         ensures=_PIPE_FRAME + _PIPE_SAME + [
+             'result is not self', 'result.qconj == -self.qconj and result.charges == self.charges',
+             'len(result.legs) == 2 and result.legs[0] is not self.legs[0] and result.legs[1] is not self.legs[1]',
+             'result.legs[0].qconj == -self.legs[0].qconj and result.legs[1].qconj == -self.legs[1].qconj',
+             # the inner pipe is conjugated as a pipe: its own incoming legs are flipped, on fresh objects, charges kept
+             'len(result.legs[0].legs) == 2',
+             'result.legs[0].legs[0] is not self.legs[0].legs[0] and result.legs[0].legs[1] is not self.legs[0].legs[1]',
+             'result.legs[0].legs[0].qconj == -self.legs[0].legs[0].qconj and result.legs[0].legs[1].qconj == -self.legs[0].legs[1].qconj',
+             'result.legs[0].legs[0].charges == self.legs[0].legs[0].charges and result.legs[0].legs[1].charges == self.legs[0].legs[1].charges',
+             # ... and the inner pipe of self is left alone
+             'self.legs[0].legs[0].qconj == old(self.legs[0].legs[0].qconj) and self.legs[0].legs[1].qconj == old(self.legs[0].legs[1].qconj)',
+             'self.legs[0].q_map == old(self.legs[0].q_map) and self.legs[0].nlegs == old(self.legs[0].nlegs)'])
